@@ -354,7 +354,7 @@ def decide_path(unit, ctx, res, rng, tier):
     res['solver_s'] += dt
     if r == 'unsat':
         res['discharged'] += len(pending)
-        if tier == 'thorough' or rng.random() < 0.15:
+        if unit.opts.get('crosscheck', True) and (tier == 'thorough' or rng.random() < 0.15):
             _crosscheck(script, res, unit, 'batch[%d]' % len(pending))
         return
     # individually
@@ -438,6 +438,12 @@ def validate_path(unit, ctx, res, rng):
     unpatched float code run at the same point"""
     env = _random_point(ctx, rng)
     if env is None:
+        # narrow preconditions: fall back to a solver-found point of this path
+        env = witness_env(ctx, rng)
+        if env is not None:
+            for nm, fn in ctx.derived:
+                env[nm] = fn(env)
+    if env is None:
         res['validation_skipped'] += 1
         return
     fctx, st = run_float(unit, env)
@@ -468,6 +474,8 @@ def validate_path(unit, ctx, res, rng):
         if label in fv:
             a = val[l.id]
             b = fv[label]
+            if not (math.isfinite(a) and math.isfinite(b)):
+                continue
             n += 1
             if not (abs(a - b) <= 1e-7 * max(1.0, abs(b))):
                 bad += 1
